@@ -1545,6 +1545,9 @@ def shallow_parse_input_query(query_text, input_iterator, tables_registry, query
         query_context.lhs_join_var_expression = lhs_variables[0] if len(lhs_variables) == 1 else '({})'.format(', '.join(lhs_variables))
         query_context.join_map_impl = HashJoinMap(join_record_iterator, rhs_indices)
         query_context.join_map_impl.build()
+        if join_header is not None:
+            # b.* has one column per name of the join header: a record without a match gets as many None fields, also when the join table has a header and no records
+            query_context.join_map_impl.max_record_len = max(query_context.join_map_impl.max_record_len, len(join_header))
         query_context.join_map = joiner_type(query_context.join_map_impl)
 
     query_context.variables_init_code = combine_string_literals(generate_init_statements(format_expression, input_variables_map, join_variables_map), string_literals)
